@@ -129,6 +129,9 @@ class Fn:
         elif isinstance(target, ast.Starred):
             self._bind(out, target.value, value, stmt, "unpack" if kind == "assign" else kind, path + ("*",))
         elif isinstance(target, (ast.Tuple, ast.List)):
+            # a, b = map(f, (x, y))   ==   a = f(x); b = f(y)
+            if kind == "assign" and isinstance(value, ast.Call) and isinstance(value.func, ast.Name) and value.func.id == "map" and len(value.args) == 2 and isinstance(value.args[1], (ast.Tuple, ast.List)) and len(value.args[1].elts) == len(target.elts) and not value.keywords:
+                value = ast.Tuple(elts=[ast.copy_location(ast.Call(func=value.args[0], args=[x], keywords=[]), value) for x in value.args[1].elts], ctx=ast.Load())
             for i, el in enumerate(target.elts):
                 if kind == "assign" and isinstance(value, (ast.Tuple, ast.List)) and len(value.elts) == len(target.elts) and not any(isinstance(x, ast.Starred) for x in [*value.elts, *target.elts]):
                     self._bind(out, el, value.elts[i], stmt, "assign", ())
@@ -242,6 +245,9 @@ class Fn:
         return out
 
     def reaching(self, name: str, node: ast.AST) -> list[Def]:
+        at = getattr(node, "_at", None)
+        if at is not None:  # a free variable of a nested function, seen from where that function is defined
+            return self.reaching_stmt(name, at)
         d = self._scope_def(name, node)
         if d is not None:
             return [d]
@@ -339,10 +345,21 @@ class Fn:
     def ctx_of(self, node: ast.AST) -> tuple[FuncInfo, ast.AST]:
         return getattr(node, "_orig", (self.fi, node))
 
+    def nested_def(self, name: str) -> FuncInfo | None:
+        """FuncInfo of a function defined inside the analysed function (the resolver does not see nested defs of a view)."""
+        for n in own_nodes(self.fi.node):
+            if isinstance(n, (ast.FunctionDef, ast.AsyncFunctionDef)) and n.name == name:
+                return getattr(n, "_func", None)
+        return None
+
     def callee(self, call: ast.Call) -> FuncInfo | None:
         ctx, orig = self.ctx_of(call)
         if not isinstance(orig, ast.Call):
             return None
+        if isinstance(call.func, ast.Name) and ctx is self.fi:
+            nd = self.nested_def(call.func.id)
+            if nd is not None:
+                return nd
         try:
             cs, how = self.T.callees(ctx, orig, byname_fallback=False)
         except Exception:  # noqa: BLE001
@@ -403,7 +420,9 @@ class Fn:
             return [self._ex(x, use_stmt, depth, keep) for x in e]
         if not isinstance(e, ast.AST):
             return e
-        if isinstance(e, ast.Name) and isinstance(e.ctx, ast.Load) and depth > 0 and e.id not in keep and parent(e) is not None:
+        if isinstance(e, ast.Name) and isinstance(e.ctx, ast.Load) and depth > 0 and e.id not in keep and (parent(e) is not None or hasattr(e, "_at")):
+            if hasattr(e, "_at"):
+                use_stmt = e._at
             defs = self.reaching(e.id, e)
             if len(defs) == 1 and defs[0].kind == "assign" and defs[0].value is not None and e.id not in self.mutated and self._valid_at(defs[0], use_stmt):
                 v = defs[0].value
@@ -431,6 +450,20 @@ class Fn:
             r = beta(new.func, new.args, new.keywords)
             if r is not None:
                 return r
+        if isinstance(new, ast.Call) and isinstance(new.func, ast.Call) and new.func.args and self.lib_name(new.func.func) in ("functools.partial", "partial"):
+            # partial(f, a, k=v)(b)  ==  f(a, b, k=v)
+            pc = new.func
+            call = ast.Call(func=pc.args[0], args=[*pc.args[1:], *new.args], keywords=[*pc.keywords, *new.keywords])
+            ast.copy_location(call, new)
+            if depth > 0:
+                if isinstance(call.func, ast.Lambda):
+                    r = beta(call.func, call.args, call.keywords)
+                    if r is not None:
+                        return r
+                r = self.summarise(call, use_stmt, depth - 1, keep)
+                if r is not None:
+                    return r
+            return call
         return new
 
     def summarise(self, call: ast.Call, use_stmt, depth: int, keep: set[str]):
@@ -446,26 +479,20 @@ class Fn:
         if not (private or callee.outer is not None or local) or callee.fq in self.vocabulary:
             return None
         body = strip_docstring(callee.node.body)
-        if not body or not isinstance(body[-1], ast.Return) or body[-1].value is None:
+        if not body:
             return None
         a = callee.node.args
         if a.vararg or a.kwarg:
             return None
-        local: dict[str, ast.expr] = {}
-        for s in body[:-1]:
-            if isinstance(s, ast.Assign) and len(s.targets) == 1 and isinstance(s.targets[0], ast.Name) and s.targets[0].id not in local:
-                local[s.targets[0].id] = s.value
-            elif isinstance(s, ast.AnnAssign) and isinstance(s.target, ast.Name) and s.value is not None and s.target.id not in local:
-                local[s.target.id] = s.value
-            else:
+        for n in own_nodes(callee.node):
+            if isinstance(n, (ast.For, ast.AsyncFor, ast.While, ast.Try, ast.With, ast.AsyncWith, ast.Yield, ast.YieldFrom, ast.Await, ast.Global, ast.Nonlocal, ast.FunctionDef, ast.AsyncFunctionDef, ast.ClassDef, ast.AugAssign, ast.Delete, ast.Match)):
+                return None
+            # locals must not be changed in place
+            if isinstance(n, ast.Call) and isinstance(n.func, ast.Attribute) and n.func.attr in MUTATORS:
+                return None
+            if isinstance(n, ast.Assign) and not (len(n.targets) == 1 and isinstance(n.targets[0], ast.Name)):
                 return None
         params = [p.arg for p in [*a.posonlyargs, *a.args, *a.kwonlyargs]]
-        if any(p in local for p in params):
-            return None
-        # locals must not be mutated in place
-        for n in own_nodes(callee.node):
-            if isinstance(n, ast.Call) and isinstance(n.func, ast.Attribute) and n.func.attr in MUTATORS and isinstance(n.func.value, ast.Name) and n.func.value.id in local:
-                return None
         pos = [p.arg for p in [*a.posonlyargs, *a.args]]
         bind: dict[str, ast.expr] = {}
         if callee.cls is not None and callee.outer is None and not callee.is_staticmethod and pos:
@@ -481,7 +508,7 @@ class Fn:
         for p, x in zip(pos, call.args):
             bind[p] = self._ex(x, use_stmt, depth - 1, keep)
         for k in call.keywords:
-            if k.arg not in params:
+            if k.arg not in params or k.arg in bind:
                 return None
             bind[k.arg] = self._ex(k.value, use_stmt, depth - 1, keep)
         pos_all = [*a.posonlyargs, *a.args]
@@ -492,10 +519,57 @@ class Fn:
                 bind.setdefault(p.arg, copy_node(d, callee))
         if any(p not in bind for p in params):
             return None
-        env = dict(bind)
-        for name, v in local.items():
-            env[name] = substitute(copy_node(v, callee), env)
-        out = substitute(copy_node(body[-1].value, callee), env)
+        # free variables of a nested function denote the enclosing function's locals at the place of its definition
+        closure_at = None
+        if callee.outer is not None:
+            base = getattr(self.fi, "base", self.fi)
+            if callee.outer is base or callee.outer is self.fi:
+                closure_at = next((n for n in own_nodes(self.fi.node) if isinstance(n, (ast.FunctionDef, ast.AsyncFunctionDef)) and n.name == callee.name), None)
+
+        def cp(e):
+            c = copy_node(e, callee)
+            if closure_at is not None:
+                bound = set(params) | {n.id for n in ast.walk(callee.node) if isinstance(n, ast.Name) and isinstance(n.ctx, ast.Store)}
+                for n in ast.walk(c):
+                    if isinstance(n, ast.Name) and isinstance(n.ctx, ast.Load) and n.id not in bound:
+                        n._at = closure_at  # type: ignore[attr-defined]
+                        n._orig = (self.fi, n)  # type: ignore[attr-defined]
+            return c
+
+        def ret_expr(stmts: list, env: dict, fuel: int):
+            env = dict(env)
+            if fuel <= 0:
+                return None
+            for i, st in enumerate(stmts):
+                if isinstance(st, ast.Pass):
+                    continue
+                if isinstance(st, ast.Assign):
+                    env[st.targets[0].id] = substitute(cp(st.value), env)
+                elif isinstance(st, ast.AnnAssign) and isinstance(st.target, ast.Name):
+                    if st.value is not None:
+                        env[st.target.id] = substitute(cp(st.value), env)
+                elif isinstance(st, ast.Return):
+                    return substitute(cp(st.value), env) if st.value is not None else None
+                elif isinstance(st, ast.If):
+                    rest = stmts[i + 1:]
+                    x = ret_expr(st.body if always_exits(st.body) else st.body + rest, env, fuel - 1)
+                    y = ret_expr(st.orelse if (st.orelse and always_exits(st.orelse)) else st.orelse + rest, env, fuel - 1)
+                    test = fold_const(substitute(cp(st.test), env))
+                    if isinstance(test, ast.Constant):
+                        return x if test.value else y
+                    if x is None or y is None:
+                        return None
+                    return ast.copy_location(ast.IfExp(test=test, body=x, orelse=y), st)
+                else:
+                    return None
+            return None
+
+        if any(p in {n.id for n in ast.walk(callee.node) if isinstance(n, ast.Name) and isinstance(n.ctx, ast.Store)} for p in params):
+            return None
+        out = ret_expr(body, bind, 6)
+        if out is None:
+            return None
+        out = fold_const(out)
         out._summary_of = callee.fq  # type: ignore[attr-defined]
         return out
 
@@ -536,6 +610,45 @@ def path_conditions_nokill(fn_node: ast.AST) -> dict[int, list]:
     if not isinstance(fn_node, ast.Lambda):
         block(fn_node.body, [])
     return out
+
+
+def fold_const(e: ast.AST) -> ast.AST:
+    """Constant folding of boolean structure: `x if True else y`, `not False`, `False and x`, `True or x`."""
+
+    class Tr(ast.NodeTransformer):
+        def visit_IfExp(self, n: ast.IfExp):  # noqa: N802
+            self.generic_visit(n)
+            if isinstance(n.test, ast.Constant):
+                return n.body if n.test.value else n.orelse
+            return n
+
+        def visit_UnaryOp(self, n: ast.UnaryOp):  # noqa: N802
+            self.generic_visit(n)
+            if isinstance(n.op, ast.Not) and isinstance(n.operand, ast.Constant):
+                return ast.copy_location(ast.Constant(value=not n.operand.value), n)
+            return n
+
+        def visit_BoolOp(self, n: ast.BoolOp):  # noqa: N802
+            self.generic_visit(n)
+            is_and = isinstance(n.op, ast.And)
+            vals = []
+            for v in n.values:
+                if isinstance(v, ast.Constant):
+                    if bool(v.value) is is_and:
+                        continue  # neutral element
+                    return ast.copy_location(ast.Constant(value=not is_and), n) if not vals else n
+                vals.append(v)
+            if not vals:
+                return ast.copy_location(ast.Constant(value=is_and), n)
+            if len(vals) == 1:
+                return vals[0]
+            n.values = vals
+            return n
+
+        def visit_Lambda(self, n):  # noqa: N802
+            return n
+
+    return Tr().visit(e)
 
 
 def beta(lam: ast.Lambda, args: list, keywords: list) -> ast.AST | None:
